@@ -323,6 +323,8 @@ pub struct Exec {
     pub wseq: BTreeMap<(u8, Vec<u8>), u64>,
     /// highest persisted seqno per keyspace right after the last (re)open
     pub persisted_at_open: BTreeMap<u8, Option<u64>>,
+    /// C15: every reopen uses the other journal compression setting
+    pub flip_journal_lz4_on_reopen: bool,
 }
 
 fn err(sig: &str, what: &str, e: &fjall::Error) -> Deviation {
@@ -354,6 +356,7 @@ impl Exec {
             soft: Vec::new(),
             wseq: BTreeMap::new(),
             persisted_at_open: BTreeMap::new(),
+            flip_journal_lz4_on_reopen: false,
         }
     }
 
@@ -722,6 +725,10 @@ impl Exec {
                 self.close_checked()?;
                 self.emit_mark("D");
                 self.journal_seqno_before_reopen = journal_max_seqno(&self.path);
+                if self.flip_journal_lz4_on_reopen {
+                    self.cfg.journal_lz4 = !self.cfg.journal_lz4;
+                    self.stats.inc("journal_compression_flips");
+                }
                 self.open_front(*front)?;
                 self.check_names()?;
             }
